@@ -69,8 +69,9 @@ def processBlock (b : Block) (st : Stats) : IO Stats := do
           return { st with bads := st.bads + 1 }
         implTrace := implTrace.push (op, iobs)
         let r := step env w op
+        let la := lockActs env w op
         w := r.1
-        let mobs := obsOf w r.2.1 r.2.2
+        let mobs := obsOf w r.2.1 r.2.2 la.1 la.2
         modelTrace := modelTrace.push (op, mobs)
         -- stale-file damage replays what the implementation had on disk
         pjHist := pjHist.push iobs.pj
